@@ -8,6 +8,7 @@ package main
 import (
 	"fmt"
 	"go/ast"
+	"go/types"
 	"os"
 )
 
@@ -49,6 +50,31 @@ func init() {
 				}
 			}
 		}
+		// a length-limited reader: what is read is some prefix of what the wrapped reader would give; how much of the
+		// wrapped stream is consumed is not known
+		limited := func(v Value) (Value, bool) {
+			if p, ok := v.(*PtrV); ok && p.Obj >= 0 {
+				if sv, ok := ec.st.heap[p.Obj].(*StructV); ok && sv.F["$lim"] != nil {
+					return sv.F["$lim"], true
+				}
+			}
+			return nil, false
+		}
+		var limSrc Value
+		switch x := src.(type) {
+		case *PtrV:
+			limSrc, _ = limited(x)
+		case *IfaceV:
+			for _, p := range x.Payloads {
+				if w, ok := limited(p); ok && x.Tag.IsInt() {
+					limSrc = w
+				}
+			}
+		}
+		if limSrc != nil {
+			ec.havocStreamsUnder(limSrc)
+			return &TupleV{Vs: []Value{Var(ec.e().fresher.name("ReadAll.limited"), SStr), err}}
+		}
 		okT := Eq(err, Int(0))
 		plain := Not(Or(conds...))
 		lv := ec.inLval(src)
@@ -72,6 +98,12 @@ func init() {
 	stdModels["(*os.File).Close"] = func(ec *evalCtx, call *ast.CallExpr, recv Value, args []Value) Value {
 		ec.e().trusted["std:(*os.File).Close error not counted as a failure (read-only files)"] = true
 		return Var(ec.e().fresher.name("File.Close.err"), SInt)
+	}
+	// io.LimitReader(r, n): a reader that yields at most n bytes of r
+	stdModels["io.LimitReader"] = func(ec *evalCtx, call *ast.CallExpr, recv Value, args []Value) Value {
+		obj := ec.e().allocObj(ec.st, &StructV{Names: []string{"$lim", "$n"}, F: map[string]Value{"$lim": args[0], "$n": args[1]}})
+		p := &PtrV{Nil: False, Obj: obj}
+		return ec.convertTo(p, types.NewPointer(ec.limitedReaderType()), ec.info.TypeOf(call))
 	}
 	// io.NopCloser(r): the same reader (Close does nothing)
 	stdModels["io.NopCloser"] = func(ec *evalCtx, call *ast.CallExpr, recv Value, args []Value) Value {
@@ -146,4 +178,44 @@ func (ec *evalCtx) zwrapped(v Value, field string) (Value, string, bool) {
 		}
 	}
 	return nil, "", false
+}
+
+// havocStreamsUnder: the unread input of v - and of the stream a decompressing reader v wraps - becomes unknown.
+func (ec *evalCtx) havocStreamsUnder(v Value) {
+	ec.inLval(v).set(Var(ec.e().fresher.name("in.unknown"), SStr))
+	switch x := v.(type) {
+	case *PtrV:
+		if t, _, ok := ec.zwrapped(x, "$zr"); ok {
+			ec.havocStreamsUnder(t)
+		}
+	case *IfaceV:
+		for _, p := range x.Payloads {
+			if t, _, ok := ec.zwrapped(p, "$zr"); ok {
+				ec.inLval(t).set(Ite(Eq(x.Tag, Int(ec.e().typeTag(payloadTypeName(x, p)))), Var(ec.e().fresher.name("in.unknown"), SStr), scalar(ec.inLval(t).get())))
+			}
+		}
+		if c, a, b, ok := splitIface(x); ok {
+			_ = c
+			ec.havocStreamsUnder(a)
+			ec.havocStreamsUnder(b)
+		}
+	}
+}
+
+func payloadTypeName(x *IfaceV, p Value) string {
+	for name, q := range x.Payloads {
+		if q == p {
+			return name
+		}
+	}
+	return ""
+}
+
+func (ec *evalCtx) limitedReaderType() types.Type {
+	if pkg := ec.e().pkgs["io"]; pkg != nil && pkg.Types != nil {
+		if o := pkg.Types.Scope().Lookup("LimitedReader"); o != nil {
+			return o.Type()
+		}
+	}
+	return types.NewNamed(types.NewTypeName(0, nil, "LimitedReader", nil), types.NewStruct(nil, nil), nil)
 }
